@@ -11,8 +11,8 @@ Import ListNotations.
 
 (* save_state() has no effect on the running game: it is a function of the state (save_json e is a value
    computed from e; there is no resulting state to speak of).  Stated for completeness: *)
-Theorem save_no_effect : forall cx fuel out_enc (e : estate) d1 d2,
-  save_json cx fuel out_enc e = Some d1 -> save_json cx fuel out_enc e = Some d2 -> d1 = d2.
+Theorem save_no_effect : forall st cx fuel out_enc now (e : estate) d1 d2,
+  save_json st cx fuel out_enc now e = Some d1 -> save_json st cx fuel out_enc now e = Some d2 -> d1 = d2.
 Proof. intros. congruence. Qed.
 Print Assumptions save_no_effect.
 
@@ -20,10 +20,10 @@ Print Assumptions save_no_effect.
    one-time choices, hook registrations, @join progress and the displayed text/choices exactly, the variables as
    the value codec restores them (C06 state_roundtrip: equal values, tuples as lists, imports kept), and clears
    the undo/redo history *)
-Theorem load_faithful : forall orc ctxkeys st cx fuel out_enc out_dec e e0 doc sd p o vars',
+Theorem load_faithful : forall orc ctxkeys st cx fuel out_enc out_dec now e e0 doc sd p o vars',
   cur (ec e) = Some p -> has_key p (passages st) = true -> out (ec e) = Some o ->
   save_doc fuel fixed cx (vars (ec e)) = Some sd ->
-  save_json cx fuel out_enc e = Some doc ->
+  save_json st cx fuel out_enc now e = Some doc ->
   output_shape st (json_rt (out_enc o)) = true -> out_dec (json_rt (out_enc o)) = Some o ->
   load_doc fixed cx (vars (ec e0)) (map_items json_rt sd) = Some vars' ->
   load orc ctxkeys st cx out_dec e0 (json_rt doc) =
@@ -35,18 +35,18 @@ Print Assumptions load_faithful.
 (* hence every continuation behaves exactly as in the original session with its history cleared: the loaded
    engine IS that state (same core, empty stacks), and the engine is a function of its state.  In particular when
    the variables come back unchanged (no tuples): *)
-Theorem continuation_equal : forall orc ctxkeys st cx fuel out_enc out_dec e e0 doc sd p o,
+Theorem continuation_equal : forall orc ctxkeys st cx fuel out_enc out_dec now e e0 doc sd p o,
   cur (ec e) = Some p -> has_key p (passages st) = true -> out (ec e) = Some o ->
   save_doc fuel fixed cx (vars (ec e)) = Some sd ->
-  save_json cx fuel out_enc e = Some doc ->
+  save_json st cx fuel out_enc now e = Some doc ->
   output_shape st (json_rt (out_enc o)) = true -> out_dec (json_rt (out_enc o)) = Some o ->
   load_doc fixed cx (vars (ec e0)) (map_items json_rt sd) = Some (vars (ec e)) ->
   escopes e0 = escopes e -> elog e0 = elog e ->
   fst (load orc ctxkeys st cx out_dec e0 (json_rt doc)) =
   mkES (ec e) [] [] (escopes e) (elog e).
 Proof.
-  intros orc ctxkeys st cx fuel out_enc out_dec e e0 doc sd p o Hc Hk Ho Hsd Hs Hsh Hd Hl Hsc Hlg.
-  rewrite (load_faithful_lemma orc ctxkeys st cx fuel out_enc out_dec e e0 doc sd p o (vars (ec e))
+  intros orc ctxkeys st cx fuel out_enc out_dec now e e0 doc sd p o Hc Hk Ho Hsd Hs Hsh Hd Hl Hsc Hlg.
+  rewrite (load_faithful_lemma orc ctxkeys st cx fuel out_enc out_dec now e e0 doc sd p o (vars (ec e))
              Hc Hk Ho Hsd Hs Hsh Hd Hl). simpl. rewrite Hsc, Hlg.
   destruct e as [[c v u h j ot] us rs sc lg]. simpl in *. subst. reflexivity.
 Qed.
@@ -103,11 +103,11 @@ Proof. vm_compute. repeat split. Qed.
 From Bardic Require Import Codec JsonText JsonTextProofs JsonTextSave.
 
 (* C05: the document of save_state(), written as text (either layout) and read back *)
-Theorem save_text_roundtrip_c05 : forall cx fuel out_enc e doc,
+Theorem save_text_roundtrip_c05 : forall st cx fuel out_enc now e doc,
   ctx_kd cx -> env_kd (vars (ec e)) ->
   NoDup (map fst (hooks (ec e))) -> NoDup (map fst (joinidx (ec e))) ->
   (forall o, out (ec e) = Some o -> keys_distinct (out_enc o)) ->
-  save_json cx fuel out_enc e = Some doc ->
+  save_json st cx fuel out_enc now e = Some doc ->
   loads (dumps doc) = Some (json_rt doc) /\ loads (dumps_indent2 doc) = Some (json_rt doc).
 Proof. exact save_text_roundtrip. Qed.
 Print Assumptions save_text_roundtrip_c05.
@@ -117,7 +117,7 @@ Print Assumptions save_text_roundtrip_c05.
 (* =========================================================================================== *)
 From Coq Require Import String Ascii List Bool ZArith Arith.
 From Bardic Require Import PyStr Value Compiled Engine EngineCheck EngineHooks StoryWfChoose Codec SaveLoad JsonText
-     SaveOutEnc SaveTextReach.
+     SaveOutEnc SaveTextReach ArgKeys.
 Module Reach.
 (* C05 (addition) - the save document as TEXT, for every reachable state: the side conditions of
    save_text_roundtrip_c05 (variables, hook table, @join table, displayed output are Python dicts) are invariants of
@@ -153,16 +153,16 @@ Proof. exact out_enc_std_kd. Qed.
 Print Assumptions out_enc_std_keys_distinct_c05.
 
 (* hence: the document of save_state() in ANY reachable state, written as text (either layout), reads back *)
-Theorem reachable_save_text_roundtrip_c05 : forall orc ctxkeys st, orc_kd orc -> forall cx fuel e doc,
+Theorem reachable_save_text_roundtrip_c05 : forall orc ctxkeys st, orc_kd orc -> forall cx fuel now e doc,
   ctx_kd cx -> reach_kd orc ctxkeys st e ->
-  save_json cx fuel (out_enc_std cx fuel) e = Some doc ->
+  save_json st cx fuel (out_enc_std cx fuel) now e = Some doc ->
   loads (dumps doc) = Some (json_rt doc) /\ loads (dumps_indent2 doc) = Some (json_rt doc).
 Proof. exact reachable_save_text_roundtrip. Qed.
 Print Assumptions reachable_save_text_roundtrip_c05.
 
-Theorem played_save_text_roundtrip_c05 : forall orc ctxkeys st, orc_kd orc -> forall cx fuel e slot doc,
+Theorem played_save_text_roundtrip_c05 : forall orc ctxkeys st, orc_kd orc -> forall cx fuel now e slot doc,
   ctx_kd cx -> played_kd orc ctxkeys st e slot ->
-  save_json cx fuel (out_enc_std cx fuel) e = Some doc ->
+  save_json st cx fuel (out_enc_std cx fuel) now e = Some doc ->
   loads (dumps doc) = Some (json_rt doc) /\ loads (dumps_indent2 doc) = Some (json_rt doc).
 Proof. exact played_save_text_roundtrip. Qed.
 Print Assumptions played_save_text_roundtrip_c05.
@@ -188,8 +188,7 @@ Proof.
   - intros ctx code v _ E. inversion E; subst. cbn. repeat split; try exact I. repeat constructor. intros [].
   - intros ctx code ctx' H E. inversion E; subst. apply env_kd_vkd. apply env_kd_set; [|exact H].
     cbn. repeat split; constructor.
-  - intros ctx a pos kw _ E. inversion E; subst. cbn. repeat split; try exact I.
-    repeat constructor; cbn; intros H; repeat (destruct H as [H|H]; [discriminate H|]); exact H.
+  - intros ctx a pos kw _ E. inversion E; subst. split; repeat constructor.
 Qed.
 
 Definition demo_reach_story : story :=
@@ -214,20 +213,45 @@ Proof.
   - vm_compute in E. discriminate E.
 Qed.
 
+Definition demo_now : string := "2026-10-01T12:00:00.000001".
+Definition doc_keys (j : json) : list string := match j with JObj o => map fst o | _ => [] end.
+
 Example demo_reach_saves :
-  exists doc, save_json [] 3 (out_enc_std [] 3) demo_reach_state = Some doc /\
+  exists doc, save_json demo_reach_story [] 3 (out_enc_std [] 3) demo_now demo_reach_state = Some doc /\
               loads (dumps doc) = Some (json_rt doc) /\ loads (dumps_indent2 doc) = Some (json_rt doc) /\
               hooks (ec demo_reach_state) = [("turn_end", ["H"])] /\
-              map fst (vars (ec demo_reach_state)) = ["seen"; "_inputs"; "x"].
+              map fst (vars (ec demo_reach_state)) = ["seen"; "_inputs"; "x"] /\
+              (* the 12 keys of the real document, in its order *)
+              doc_keys doc = ["version"; "story_version"; "story_name"; "story_id"; "timestamp"; "current_passage_id";
+                              "state"; "used_choices"; "metadata"; "hooks"; "join_section_index"; "current_output"].
 Proof.
-  destruct (save_json [] 3 (out_enc_std [] 3) demo_reach_state) as [doc|] eqn:E.
+  destruct (save_json demo_reach_story [] 3 (out_enc_std [] 3) demo_now demo_reach_state) as [doc|] eqn:E.
   - exists doc. split; [reflexivity|].
     assert (Hcx : ctx_kd []) by (intros c f attrs H; cbn in H; discriminate H).
-    destruct (reachable_save_text_roundtrip_c05 orc0 [] demo_reach_story orc0_kd [] 3 demo_reach_state doc
+    destruct (reachable_save_text_roundtrip_c05 orc0 [] demo_reach_story orc0_kd [] 3 demo_now demo_reach_state doc
                 Hcx demo_reach_state_reachable E) as [H1 H2].
-    split; [exact H1|]. split; [exact H2|]. vm_compute. split; reflexivity.
+    split; [exact H1|]. split; [exact H2|]. split; [vm_compute; reflexivity|]. split; [vm_compute; reflexivity|].
+    vm_compute in E. inversion E; subst doc. reflexivity.
   - vm_compute in E. discriminate E.
 Qed.
+
+(* the five entries load_state does not read: story_version / story_name / story_id come from the story's @metadata
+   block ("unknown" when absent), timestamp from the clock, metadata from the story *)
+Definition demo_meta_story : story :=
+  mkStory "A" [("A", mkPassage "A" [] [TText "hi"] [] [] [] []); ("B", mkPassage "B" [] [] [] [] [] [])] []
+          [("title", "Demo"); ("version", "1.2"); ("author", "nobody")].
+Example demo_meta_saves :
+  save_json demo_meta_story [] 3 (out_enc_std [] 3) demo_now
+            (fst (init orc0 [] demo_meta_story [("n", VInt 1)])) =
+  Some (JObj [("version", JStr "0.1.0"); ("story_version", JStr "1.2"); ("story_name", JStr "Demo");
+              ("story_id", JStr "unknown"); ("timestamp", JStr demo_now); ("current_passage_id", JStr "A");
+              ("state", JObj [("n", JInt 1); ("_inputs", JObj [])]); ("used_choices", JList []);
+              ("metadata", JObj [("passage_count", JInt 2); ("initial_passage", JStr "A")]);
+              ("hooks", JObj []); ("join_section_index", JObj [("A", JInt 0)]);
+              ("current_output",
+               JObj [("content", JStr "hi"); ("choices", JList []); ("passage_id", JStr "A");
+                     ("render_directives", JList []); ("input_directives", JList []); ("jump_target", JNull)])]).
+Proof. vm_compute. reflexivity. Qed.
 
 (* the requirement on the initial variables is needed: the model type of environments also has lists that are not
    Python dicts, and reach/played start from any of them *)
@@ -241,10 +265,18 @@ Proof.
   - vm_compute. intros H. inversion H as [|a l Hn Hr]; subst. apply Hn. left. reflexivity.
 Qed.
 
-(* the third clause of orc_kd speaks of the whole argument dictionary because the model's parse_args appends the
-   keyword pairs to arg_0.. (Engine.parse_args), where Python assigns into one dict: "f(1, arg_0=2)" gives
-   {"arg_0": 2} in the implementation and a list with a repeated key in the model *)
-Example args_dict_clause_needed :
-  ~ NoDup (map fst (number_args 0 [VInt 1] ++ [("arg_0", VInt 2)])).
-Proof. vm_compute. intros H. inversion H as [|a l Hn Hr]; subst. apply Hn. left. reflexivity. Qed.
+(* the third clause of orc_kd asks nothing of the keyword NAMES: the engine assigns them into the dict that already
+   holds arg_0, arg_1, .. (Engine.args_dict, as _parse_directive_args does), so the argument dictionary of a call or
+   of an evaluated @render directive has distinct keys whatever the author wrote: "f(1, arg_0=2)" gives
+   {"arg_0": 2}, "f(a=1, a=2)" gives {"a": 2} (ast.parse accepts both; replayed on the real engine) *)
+Theorem argument_dict_keys_distinct_c05 : forall pos kws, NoDup (map fst (args_dict pos kws)).
+Proof. exact ArgKeys.args_dict_nodup. Qed.
+Print Assumptions argument_dict_keys_distinct_c05.
+
+Example args_dict_marker_keyword :
+  args_dict [VInt 1] [("arg_0", VInt 2)] = [("arg_0", VInt 2)] /\
+  args_dict [VInt 1; VInt 2] [("arg_0", VInt 7); ("x", VInt 3); ("arg_5", VInt 4)] =
+    [("arg_0", VInt 7); ("arg_1", VInt 2); ("x", VInt 3); ("arg_5", VInt 4)] /\
+  args_dict [] [("a", VInt 1); ("a", VInt 2)] = [("a", VInt 2)].
+Proof. vm_compute. repeat split. Qed.
 End Reach.
